@@ -21,7 +21,10 @@ Definition mk_outcome (e : option err) (rules : list (N * bool)) (events : list 
 Definition C05_case (c : cfg) (sc : scanner) (inp : inputs) (impl : outcome) : bool * bool * N :=
   (outcome_eqb false impl (run_scan c Never inp sc),
    match o_err impl with
-   | None => if c_cb c then list_eqb event_eqb (o_events impl) (spec_events c sc inp)
+   | None => if c_cb c then list_eqb event_eqb
+                                (filter (fun e => match e with EvMatch _ | EvNoMatch _ => true | _ => false end)
+                                        (o_events impl))
+                                (spec_events c sc inp)
              else list_eqb erule_eqb (o_rules impl) (spec_reported sc inp (c_nm c))
    | Some _ => false
    end,
@@ -84,6 +87,20 @@ Definition kf_timeout_in_globals (c : cfg) (it : intr) (sc : scanner) (inp : inp
   | _ => false
   end.
 
+(* known-finding class C15-noscan-timeout-flush-order: the evaluation pass before the string scan is
+   allowed and the timeout fires during that pass: the rules it had decided are flushed to the callback,
+   although the complete scan (which goes on to scan for strings) delivers the events of the string scan
+   first — StringReachedMatchLimit events, and for fragmented memory the ModuleImport events *)
+Definition kf_noscan_timeout_flush_order (c : cfg) (it : intr) (sc : scanner) (inp : inputs) : bool :=
+  match it with
+  | TimeoutAt j =>
+      can_noscan c && c_cb c
+      && ((c_ev_limit c && existsb (fun l => negb (is_nil l)) (i_ac inp))
+          || (negb (c_direct c) && c_ev_import c && negb (is_nil (i_imports inp))))
+      && (j <=? nchecks (fst (eval_without_matches c Never inp sc {| pend := []; evs := []; nchecks := 0 |})))
+  | _ => false
+  end.
+
 Definition C15_case (c : cfg) (it : intr) (sc : scanner) (inp : inputs) (full impl : outcome) (next_ok : bool)
   : bool * bool * N :=
   (outcome_eqb true impl (run_scan c it inp sc) && outcome_eqb true full (run_scan c Never inp sc),
@@ -97,4 +114,5 @@ Definition C15_case (c : cfg) (it : intr) (sc : scanner) (inp : inputs) (full im
               (o_rules impl)
    && is_prefix_by N.eqb (map er_id (filter er_matched (o_rules impl))) (map er_id (filter er_matched (o_rules full)))
    && next_ok,
-   if kf_global_refs_ordinary sc then 1 else if kf_timeout_in_globals c it sc inp then 2 else 0).
+   if kf_global_refs_ordinary sc then 1 else if kf_timeout_in_globals c it sc inp then 2
+   else if kf_noscan_timeout_flush_order c it sc inp then 3 else 0).
